@@ -117,7 +117,8 @@ def run(chk, replay=None):
                 chk.nontrivial('nb|%s|%d|%s' % (total, n, vf))
     # observed counts of the size of the forecast total (tens to hundreds), forecasts held in double or single precision:
     # P(N >= n) must still include P(N = n) when n - 1e-6 is not representable next to n in the forecast's own precision
-    for total, n in ((40.0, 40), (40.0, 33), (35.5, 50), (250.0, 250), (100.0, 64), (1000.0, 1024), (16.0, 17)):
+    for total, n in ((40.0, 40), (40.0, 33), (35.5, 50), (250.0, 250), (100.0, 64), (1000.0, 1024), (16.0, 17)) + \
+            (((1e4, 10000), (1e5, 100000), (1e5, 99000)) if not quick else ((1e4, 10000),)):
         for dtype in (None, 'float32'):
             for scale in (None, 0.5):
                 fc = forecast_with_total(total, scale=scale, dtype=dtype)
